@@ -21,7 +21,7 @@ class Ini(object):
         for name, entries in self.sections:
             out.append('[%s]' % name)
             for k, v in entries:
-                out.append('%s%s%s' % (k, sep, v))
+                out.append('%s%s%s' % (k, sep, v.replace('\n', '\n    ')))       # multi-line values: indented continuation lines
             out.append('')
         return '\n'.join(out) + '\n'
 
